@@ -34,6 +34,15 @@ class Session:
         self.problems = []        # (kind, text): 'pre' call-site pre-condition, 'rel' input not the transformed input
         self.kf = []              # dependent known findings met on the way (pseudo-scalars through normalisation)
         self.counter = itertools.count()
+        self.T = None             # custom transformation (cyclic translation) instead of the group element g
+
+    def transform(self, b, k):
+        if self.T is not None:
+            return self.T(b, k)
+        return act_sym(b, self.D, k[0], k[1], self.g, lead=1)
+
+    def tflags(self, flags):
+        return tuple(flags) if self.T is not None else rotated_flags(flags, self.g)
 
     def fresh_block(self, name, lead_dims, spatial, k):
         return arr.source(f"{name}!{next(self.counter)}", list(lead_dims) + list(spatial) + [Atom(self.D) for _ in range(k)])
@@ -60,18 +69,18 @@ class Session:
         g = self.g
         if list(x.keys()) != list(c["inp"].keys()):
             self.problems.append(("rel", f"{kind}: key lists differ between the runs"))
-        if tuple(x.is_torus) != rotated_flags(c["flags"], g):
-            self.problems.append(("rel", f"{kind}#{self.pos - 1}: boundary flags of the transformed input are {tuple(x.is_torus)}, expected {rotated_flags(c['flags'], g)}"))
+        if tuple(x.is_torus) != self.tflags(c["flags"]):
+            self.problems.append(("rel", f"{kind}#{self.pos - 1}: boundary flags of the transformed input are {tuple(x.is_torus)}, expected {self.tflags(c['flags'])}"))
         nlead = 1
         for k, b in c["inp"].items():
             if k not in x:
                 continue
-            st, detail, m = arr.compare(arr.lift(x[k]), act_sym(b, self.D, k[0], k[1], g, lead=nlead), f"{kind}#{self.pos - 1} input block {k}")
+            st, detail, m = arr.compare(arr.lift(x[k]), self.transform(b, k), f"{kind}#{self.pos - 1} input block {k}")
             if st != "proved":
                 self.problems.append(("rel" if st == "refuted" else "undecided", f"{kind}#{self.pos - 1}: input block {k} is not the transformed input: {detail}"))
         out = x.empty()
         for (k, b) in c["out"]:
-            out.append(k[0], k[1], act_sym(b, self.D, k[0], k[1], g, lead=nlead))
+            out.append(k[0], k[1], self.transform(b, k))
         return out
 
 
@@ -116,6 +125,16 @@ def install(equivariant=True):
             S.problems.append(("pre-rel", f"ConvContract: stride {self.stride} is not 1 (no equivariance contract)"))
         if not _sym_pad(self.padding):
             S.problems.append(("pre-rel", f"ConvContract: asymmetric padding {self.padding}"))
+        if S.T is not None:
+            # translation contract (C06 ob_translation): fully toroidal image and either no image dilation with wrap padding,
+            # or the transposed form (2 x 2 bank, image dilation 2, padding ((1,1),)*D)
+            fs = [sym.concrete_int(v) for v in next(iter(self.invariant_filters.values())).shape[1:1 + D]]
+            plain = self.lhs_dilation is None and (self.padding is None or self.padding == "TORUS")
+            transposed = (self.lhs_dilation is not None and all(sym.concrete_int(v) == 2 for v in self.lhs_dilation) and all(f == 2 for f in fs)
+                          and not isinstance(self.padding, (str, int, SInt)) and self.padding is not None
+                          and all(sym.concrete_int(lo) == 1 and sym.concrete_int(hi) == 1 for lo, hi in self.padding))
+            if not all(x.is_torus) or not (plain or transposed):
+                S.problems.append(("pre-rel", f"ConvContract: no translation contract for flags {tuple(x.is_torus)}, padding {self.padding}, lhs_dilation {self.lhs_dilation}"))
 
         def make_out():
             first = next(iter(x.values()))
@@ -359,8 +378,9 @@ def build_model(cfg, W, pre):
     return model, X, dict(sp=sp, ich=ich, och=och, insig=insig, outsig=outsig, depth=depth, flags=tuple(cfg.get("flags", [True] * D)))
 
 
-def run_model(cfg, g=None):
-    """returns (session, y0, yg, info): y0 = model(x) with layer contracts, yg = model(g.x) (if g is given)"""
+def run_model(cfg, g=None, shift=False):
+    """returns (session, y0, yg, info): y0 = model(x) with layer contracts, yg = model(g.x) (if g is given) or
+    model(T x) for a cyclic translation T by a symbolic multiple of the total pooling factor (shift=True)"""
     M = load()
     G = M["ginjax.geometric"]
     D = cfg["D"]
@@ -381,6 +401,33 @@ def run_model(cfg, g=None):
             S.mode = "replay"
             gX = {k: act_sym(b, D, k[0], k[1], g, lead=1) for k, b in X.items()}
             yg = model(G.MultiImage(gX, D, rotated_flags(flags, g)))[0]
+            if S.pos != len(S.calls):
+                S.problems.append(("rel", "fewer layer calls in the transformed run"))
+        elif shift:
+            from ..specs.act import shift_sym
+            from .common import sint as _sint
+            nd = cfg.get("num_downsamples", 0) if cfg["arch"] == "UNet" else 0
+            ms = [z3.Int(f"m{d}") for d in range(D)]
+            ts = [_sint(f"t{d}", pre, 0) for d in range(D)]
+            for d in range(D):
+                pre.append(zi(ts[d]) < ms[d])
+            npre = len(pre)
+
+            def T(b, k):
+                taus = []
+                for d in range(D):
+                    e = zi(arr.extent(b.dims[1 + d]))
+                    for lvl in range(nd + 1):
+                        if sym.valid(e == ms[d] * (2 ** (nd - lvl))):
+                            taus.append(mk(zi(ts[d]) * (2 ** (nd - lvl))))
+                            break
+                    else:
+                        raise OutOfReach(f"translation: spatial extent {e} is not one of the pooling levels")
+                return shift_sym(arr.lift(b), taus, D, lead=1)
+            S.T = T
+            S.mode = "replay"
+            info["T"] = T
+            yg = model(G.MultiImage({k: T(b, k) for k, b in X.items()}, D, flags))[0]
             if S.pos != len(S.calls):
                 S.problems.append(("rel", "fewer layer calls in the transformed run"))
     finally:
